@@ -361,9 +361,10 @@ def incGammaCF (a x : Float) : Float := Id.run do
 
 /-- regularised lower incomplete gamma `P(a, x)`; argument order `(x, a)` as in Rust `x.inc_gamma(a)` -/
 def incGamma (x a : Float) : Float :=
-  if x.isNaN || a.isNaN then nan
+  -- Rust `special`: `if x == 0.0 { return 0.0 }` comes first, whatever the shape (even 0 / NaN)
+  if x == 0.0 then 0.0
+  else if x.isNaN || a.isNaN then nan
   else if !(a > 0.0) || x < 0.0 || a.isInf then nan
-  else if x == 0.0 then 0.0
   else if x.isInf then 1.0
   else if x < a + 1.0 then
     let p := gammaPrefactor a x * incGammaSeries a x
